@@ -2,7 +2,7 @@
 (* Trace validation for C19: every HTTP request sent to the real agent's /v1/config/network-slices *)
 (* endpoint with its status, the number of header writes and the slice-meter commands the BESS     *)
 (* server received for it.                                                                         *)
-(*  {"op":"http","method":m,"body":"valid"|"empty"|"notjson"|"wrongtypes"|"truncated",             *)
+(*  {"op":"http","method":m,"body":"valid"|"empty"|"notjson"|"wrongtypes"|"truncated"|"trailing", *)
 (*   "unit":u,"ul":Big,"dl":Big,"ulBurst":Big,"dlBurst":Big,                                       *)
 (*   "status":n,"extraHeaders":n,"cmds":n (slice-meter commands caused), "up":entry,"down":entry}   *)
 EXTENDS SliceApi, TraceLib
